@@ -31,11 +31,21 @@ def tasks(tier):
             T.append(Task('SplineOptimizer', 'calculateIntegralCost', None, cfg, label=base, setup=optimizer_default_maps, options=quad_options()))
             T.append(Task('SplineOptimizer', 'evaluate', 7, cfg, label=base + ',own workspace', setup=optimizer_user_maps, options=eval_options(),
                           pins={'p_ws_null': False}))
+    if True:
+        # the two-cost overload: forwarding, and the three-cost code instantiated with the zero waypoint cost
+        spl = SPLINES[0]
+        cfg = opt_cfg(spl, 2)
+        base = '%s,DIM=2' % spl.replace('SplineND', '')
+        o = eval_options()
+        o['type_aliases'] = {'WCF': 'VoidWaypointsCost'}
+        T.append(Task('SplineOptimizer', 'evaluate', 7, cfg, label=base + ',own workspace,zero waypoint cost', setup=optimizer_user_maps, options=o,
+                      pins={'p_ws_null': False}, gen_options={'void_waypoint_cost': True}))
+        T.append(Task('SplineOptimizer', 'evaluate', 6, cfg, label=base + ',two-cost overload', setup=optimizer_user_maps, options=eval_options(), pins={'p_ws_null': False}))
     return T
 
 
 def replay(result, workdir, seed):
-    return False, 'native replay for the optimizer family not built yet'
+    return optimizer_replay('C08', result, workdir, seed)
 
 
 def replay_file(path):
